@@ -6,5 +6,4 @@ warnings.filterwarnings("ignore")
 from gunicorn.app.wsgiapp import run
 
 if __name__ == "__main__":
-    sys.argv[0] = "gunicorn"
     sys.exit(run())
